@@ -121,6 +121,7 @@ class Repo:
                 _inl.NONNULL_REPO_FUNCTIONS.add(nm_)
         _inl.NONNULL_ATTRIBUTES.clear()
         _inl.NONNULL_ATTRIBUTES.update(_inl.nonnull_attributes(self))
+        self._restore_pulled_up_methods()
         self._inline_new_helpers()
         if not os.environ.get("VERIF_NO_INLINE"):
             from .normalize import apply_synonyms
@@ -145,6 +146,45 @@ class Repo:
             for q in set(self.inlined) | set(self.partially_evaluated):
                 if q in self.funcs:
                     renumber(self.funcs[q].node)
+
+    def _restore_pulled_up_methods(self):
+        """a method of the reviewed tree (tables/baseline_functions.json) that its class no longer defines but now inherits from a base class
+        of the same module - pulled up, typically as a template method calling `self._hook(..)` - is analysed as what the class runs: a
+        copy of the inherited method in the class's own context, where `self._hook` resolves to the class's override.  Nothing is added
+        on the reviewed tree."""
+        import copy
+        import json
+        table = os.path.join(os.path.dirname(os.path.dirname(os.path.abspath(__file__))), "tables", "baseline_functions.json")
+        self.pulled_up = {}
+        if os.environ.get("VERIF_NO_INLINE") or not os.path.exists(table):
+            return
+        for q in json.load(open(table))["functions"]:
+            if q in self.funcs or q.count(".") < 2:
+                continue
+            cq, meth = q.rsplit(".", 1)
+            if cq not in self.classes:
+                continue
+            m = self.lookup_method(cq, meth)
+            if not m or m not in self.funcs:
+                continue
+            g = self.funcs[m]
+            mod, cls = cq.rsplit(".", 1)
+            if g.is_abstract:
+                continue
+            if g.mod != mod:
+                # inherited from another module: only when every global the method reads means the same thing in both modules
+                import builtins
+                a = g.node.args
+                local = {p.arg for p in a.posonlyargs + a.args + a.kwonlyargs} | {x.id for x in ast.walk(g.node) if isinstance(x, ast.Name) and isinstance(x.ctx, (ast.Store, ast.Del))}
+                if a.vararg:
+                    local.add(a.vararg.arg)
+                if a.kwarg:
+                    local.add(a.kwarg.arg)
+                free = {x.id for x in ast.walk(g.node) if isinstance(x, ast.Name) and isinstance(x.ctx, ast.Load)} - local
+                if any(not hasattr(builtins, nm) and (self.chase(g.mod, nm) is None or self.chase(g.mod, nm) != self.chase(mod, nm)) for nm in free):
+                    continue
+            self.funcs[q] = Func(mod, cls, copy.deepcopy(g.node), g.path)
+            self.pulled_up[q] = m
 
     def _inline_new_helpers(self, merge=False):
         """functions that are not in the reviewed baseline table (helpers introduced by a later change) are analysed at
